@@ -31,6 +31,7 @@ var c09Entries = []string{
 	"newreader", "readversion", "blockreader", "loadindex:sorted", "loadindex:mhsorted", "loadindex:insertion",
 	"generateindex", "readorgenerate", "indexreadfrom", "readonly", "openreadable", "resume:rw", "resume:sc",
 	"wrapv1", "root", "rootload", "v1", "extractv1file", "replacerootsinfile",
+	"blockreader-over-datareader",
 }
 
 // c09Case is one (medium, entry point, options, delivery) execution.
@@ -45,7 +46,7 @@ type c09Result struct {
 
 func c09Profile(entry string, r *Rng) string {
 	switch entry {
-	case "newreader", "readonly", "openreadable":
+	case "newreader", "readonly", "openreadable", "blockreader-over-datareader":
 		return Pick(r, []string{sim.ProfA, sim.ProfRSA, sim.ProfRSAB})
 	case "readorgenerate", "wrapv1":
 		return Pick(r, []string{sim.ProfRS, sim.ProfRSB, sim.ProfRSA, sim.ProfRSAB})
@@ -107,6 +108,35 @@ func runEntry(entry string, data []byte, profile string, del sim.Delivery, opts 
 			note(err)
 		case "blockreader":
 			br, err := carv2.NewBlockReader(src.(io.Reader), o...)
+			note(err)
+			if err != nil {
+				return
+			}
+			for i := 0; i < limit; i++ {
+				var err error
+				if i < len(choices) && choices[i] == 'S' {
+					_, err = br.SkipNext()
+				} else {
+					_, err = br.Next()
+				}
+				if err != nil {
+					note(err)
+					return
+				}
+			}
+		case "blockreader-over-datareader":
+			// a composition of two public APIs: the payload reader handed out by Reader, iterated by BlockReader
+			rd, err := carv2.NewReader(src.(io.ReaderAt), o...)
+			note(err)
+			if err != nil {
+				return
+			}
+			dr, err := rd.DataReader()
+			note(err)
+			if err != nil {
+				return
+			}
+			br, err := carv2.NewBlockReader(dr, o...)
 			note(err)
 			if err != nil {
 				return
